@@ -20,6 +20,7 @@ fn main() {
         "c08" => rt.block_on(osv::e2e::c08::run(&a)),
         "c16" => rt.block_on(osv::e2e::c16::run(&a)),
         "c15" => rt.block_on(osv::e2e::c15::run(&a)),
+        "idle" => rt.block_on(osv::e2e::idle::run(&a)),
         other => {
             eprintln!("unknown check {other}");
             std::process::exit(2);
